@@ -56,6 +56,10 @@ enum WOp {
     QueueRescan { sel: u32, len: u8, prio: u8 },
     SetTxStatus { which: u32, status: u8 },
     PruneQueue { below_back: u8, retain: u8 },
+    /// truncate_to_chain_state(true chain state at (max scanned or tip) - depth)
+    TruncateToChainState { depth: u8 },
+    /// rewind_to_chain_state(true chain state at (max scanned or tip) - depth, reset birthdays of `reset` accounts)
+    RewindToChainState { depth: u8, reset: u8 },
     /// store_decrypted_tx of a transparent-only transaction paying `n_out` outputs to the wallet's own
     /// transparent addresses (or to a foreign one), mined at the tip or unmined
     StoreDecrypted { mined: bool, n_out: u8, to_wallet: bool, salt: u8 },
@@ -77,6 +81,8 @@ fn arb_wop() -> impl Strategy<Value = WOp> {
         2 => (any::<u32>(), 1u8..20, 0u8..5).prop_map(|(sel, len, prio)| WOp::QueueRescan { sel, len, prio }),
         2 => (any::<u32>(), 0u8..3).prop_map(|(which, status)| WOp::SetTxStatus { which, status }),
         1 => (0u8..10, 0u8..3).prop_map(|(below_back, retain)| WOp::PruneQueue { below_back, retain }),
+        3 => (0u8..12).prop_map(|depth| WOp::TruncateToChainState { depth }),
+        4 => (0u8..12, 0u8..4).prop_map(|(depth, reset)| WOp::RewindToChainState { depth, reset }),
         3 => (any::<bool>(), 1u8..4, any::<bool>(), any::<u8>()).prop_map(|(mined, n_out, to_wallet, salt)| WOp::StoreDecrypted { mined, n_out, to_wallet, salt }),
         3 => (0u8..3, 1u8..4, any::<u8>()).prop_map(|(acct, n_out, salt)| WOp::StoreSent { acct, n_out, salt }),
     ]
@@ -233,6 +239,17 @@ fn run_op(db: &mut RawDb, op: &WOp, c: &OpCtx) -> Result<String, String> {
                 _ => TransactionStatus::Mined(BlockHeight::from_u32(tip)),
             };
             db.set_transaction_status(TxId::from_bytes(t), st).map(|_| "status-set".to_string()).map_err(|e| format!("{e:?}"))
+        }
+        WOp::TruncateToChainState { depth } => {
+            let top = c.max_scanned.unwrap_or(tip).max(base);
+            let h = top.saturating_sub(*depth as u32).max(base);
+            db.truncate_to_chain_state(c.chain.state_at(h).clone()).map(|_| format!("truncated to chain state {h}")).map_err(|e| format!("{e:?}"))
+        }
+        WOp::RewindToChainState { depth, reset } => {
+            let top = c.max_scanned.unwrap_or(tip).max(base);
+            let h = top.saturating_sub(*depth as u32).max(base);
+            let reset_set: std::collections::HashSet<AccountUuid> = c.accounts.iter().copied().take((*reset as usize).min(c.accounts.len())).collect();
+            db.rewind_to_chain_state(c.chain.state_at(h).clone(), reset_set).map(|_| format!("rewound to chain state {h}")).map_err(|e| format!("{e:?}"))
         }
         WOp::StoreDecrypted { mined, n_out, to_wallet, salt } => {
             let tx = transparent_tx(c, *n_out, *to_wallet, *salt);
@@ -508,6 +525,8 @@ fn op_kind(op: &WOp) -> &'static str {
         WOp::QueueRescan { .. } => "op:queue_rescans",
         WOp::SetTxStatus { .. } => "op:set_transaction_status",
         WOp::PruneQueue { .. } => "op:prune_scan_queue_below",
+        WOp::TruncateToChainState { .. } => "op:truncate_to_chain_state",
+        WOp::RewindToChainState { .. } => "op:rewind_to_chain_state",
         WOp::StoreDecrypted { .. } => "op:store_decrypted_tx",
         WOp::StoreSent { .. } => "op:store_transactions_to_be_sent",
     }
@@ -789,7 +808,7 @@ fn summary_of(db: &RawDb) -> Result<String, String> {
 
 fn run_reader_case(case: &C02Case) -> CaseResult {
     // only write ops that change balances matter here
-    if !matches!(case.op, WOp::Scan { .. } | WOp::Truncate { .. } | WOp::DeleteAccount { .. } | WOp::UpdateTip { .. }) {
+    if !matches!(case.op, WOp::Scan { .. } | WOp::Truncate { .. } | WOp::DeleteAccount { .. } | WOp::UpdateTip { .. } | WOp::RewindToChainState { .. } | WOp::TruncateToChainState { .. } | WOp::StoreDecrypted { .. }) {
         return Ok(Obs::trivial().label("op-not-relevant"));
     }
     let Some((h, mut oc)) = build_state(case)? else {
@@ -875,7 +894,7 @@ fn main() {
     let ctx = Ctx::from_args("C02", "fault_enumeration");
     ctx.set_rule(
         "proptest (state, operation) pairs: state = generated wallet history on a file-backed wallet (+ unscanned blocks, optional existing lock); operation = one of \
-         put_blocks (scan_cached_blocks of 1..40 blocks), store_decrypted_tx and store_transactions_to_be_sent (transparent-only transactions), update_chain_tip, truncate_to_height, create_account, import_account_ufvk, delete_account, lock_outputs, unlock_output, \
+         put_blocks (scan_cached_blocks of 1..40 blocks), store_decrypted_tx and store_transactions_to_be_sent (transparent-only transactions), update_chain_tip, truncate_to_height, truncate_to_chain_state, rewind_to_chain_state, create_account, import_account_ufvk, delete_account, lock_outputs, unlock_output, \
          clear_locked_outputs, queue_rescans, set_transaction_status, prune_scan_queue_below. Per pair: reference run (VM steps S, commits C), enumerated interrupt positions \
          (all if S <= 48, else first/last 6 + 26 evenly spaced + 12 generated; thorough: 400 / 300), vetoed commit, crash copy at the commit hook, second-connection snapshot \
          before every 4th position, retry after every failure. reader-snapshot: get_wallet_summary on one WAL connection while the write commits on another at sampled reader \
